@@ -3,3 +3,17 @@ open ZCV.Props.C05
 #print axioms C05_define_ok_iff
 #print axioms C05_define_effect
 #print axioms C05_redefine_keeps_value
+#print axioms C05_define_eq_spec
+#print axioms C05_legal_invariant
+#print axioms C05_defines_fold
+#print axioms C05_text_eq_spec
+#print axioms C05_run_defs
+#print axioms C05_use_sees_only_earlier
+#print axioms C05_later_definition_not_seen
+#print axioms C05_case_insensitive
+#print axioms C05_case_insensitive_spec
+#print axioms C05_reference_case_insensitive
+#print axioms C05_shared_with_includes
+#print axioms C05_include_defs_fold
+#print axioms C05_fresh_per_load
+#print axioms C05_fresh_per_load_error
